@@ -81,6 +81,9 @@ struct Model {
     /// allocator happens to hand out or reuse.
     seen: Vec<(usize, T, bool)>,
     foreign: Vec<usize>,
+    /// handle arguments of the previous call (use-right-after-consume/free is where stale
+    /// validation state would show)
+    recent: Vec<usize>,
 }
 
 impl Model {
@@ -106,7 +109,7 @@ impl Model {
     }
     fn pick(&self, r: &mut Rng, want: T, force_live: bool) -> (usize, ArgKind) {
         let live: Vec<usize> = self.seen.iter().filter(|x| x.2 && x.1 == want).map(|x| x.0).collect();
-        let k = if force_live { 0 } else { r.below(20) };
+        let k = if force_live { 0 } else { r.below(25) };
         let (p, kind) = match k {
             0..=11 if !live.is_empty() => (live[r.below(live.len() as u64) as usize], ArgKind::Live),
             12 | 13 => {
@@ -126,8 +129,12 @@ impl Model {
                 }
             }
             17 => (self.foreign[r.below(self.foreign.len() as u64) as usize], ArgKind::Foreign),
+            20..=24 if !self.recent.is_empty() => (self.recent[r.below(self.recent.len() as u64) as usize], ArgKind::Freed),
             _ => (0, ArgKind::Null),
         };
+        if p == 0 {
+            return (0, ArgKind::Null);
+        }
         // the allocator may have reissued a freed address: what counts is the registry state now
         if self.live(p, want) {
             (p, ArgKind::Live)
@@ -151,7 +158,7 @@ fn last_error() -> String {
     }
 }
 
-const N_CALLS: u64 = 30;
+const N_CALLS: u64 = 31;
 
 fn call_name(k: u64) -> &'static str {
     [
@@ -160,13 +167,14 @@ fn call_name(k: u64) -> &'static str {
         "context_cancel", "reader_with_stream", "reader_json", "reader_detailed_json", "builder_with_definition", "builder_set_remote_url",
         "builder_add_action", "builder_to_archive", "builder_with_archive", "builder_add_resource", "builder_add_ingredient_from_stream",
         "builder_sign", "reader_resource_to_stream", "c2pa_free", "typed_free", "builder_set_no_embed", "reader_is_embedded", "free_twice",
+        "free_on_another_thread",
     ][k as usize]
 }
 
 /// Run one history in this (child) process. Reports through `say`.
 fn run_history(seed: u64, n_calls: usize, mask: &Option<Vec<bool>>, say: &mut dyn FnMut(Value)) {
     let mut r = Rng::new(seed);
-    let mut m = Model { table: HashMap::new(), seen: vec![], foreign: vec![] };
+    let mut m = Model { table: HashMap::new(), seen: vec![], foreign: vec![], recent: vec![] };
     // foreign pointers: buffers of adequate size that the library never issued
     for _ in 0..3 {
         let b: Box<[u8; 4096]> = Box::new([0u8; 4096]);
@@ -392,6 +400,34 @@ fn run_history(seed: u64, n_calls: usize, mask: &Option<Vec<bool>>, say: &mut dy
                     let rd = arg(&m, &mut rr, T::Reader);
                     let _ = c2pa_reader_is_embedded(rd as *mut C2paReader);
                 }
+                30 => {
+                    // a handle used on this thread, then freed by another thread
+                    let t = *rr.pick(&[T::Settings, T::Builder, T::Ctx, T::CtxBuilder, T::Reader]);
+                    let (p, kind) = m.pick(&mut rr, t, true);
+                    if kind == ArgKind::Live {
+                        match t {
+                            T::Settings => {
+                                let path = CString::new("verify.verify_after_sign").unwrap();
+                                let val = CString::new("false").unwrap();
+                                c2pa_settings_set_value(p as *mut C2paSettings, path.as_ptr(), val.as_ptr());
+                            }
+                            T::Builder => c2pa_builder_set_no_embed(p as *mut C2paBuilder),
+                            T::Ctx => {
+                                c2pa_context_cancel(p as *mut C2paContext);
+                            }
+                            T::Reader => {
+                                let _ = c2pa_reader_is_embedded(p as *mut C2paReader);
+                            }
+                            _ => {}
+                        }
+                        let rc = std::thread::spawn(move || c2pa_free(p as *const c_void)).join().unwrap_or(-99);
+                        m.kill(p);
+                        m.recent = vec![p];
+                        if rc != 0 {
+                            say(json!({"v": "free-return-value:live-reported-error-on-other-thread", "call": i, "returned": rc}));
+                        }
+                    }
+                }
                 _ => {
                     // free the same live handle twice in a row
                     let t = *rr.pick(&[T::Reader, T::Builder, T::Ctx, T::Settings, T::Str]);
@@ -406,6 +442,9 @@ fn run_history(seed: u64, n_calls: usize, mask: &Option<Vec<bool>>, say: &mut dy
                     }
                 }
             }
+        }
+        if !args.is_empty() {
+            m.recent = args.iter().map(|a| a.0).filter(|p| *p != 0 && !m.foreign.contains(p)).collect();
         }
         // consumption first, then the handles this call returned: the allocator may hand the
         // consumed address straight back
@@ -436,7 +475,7 @@ impl Property for C31 {
         Meta {
             id: "C31",
             level: "exploration",
-            rule: "one evaluation = one history of 5-40 calls over 30 exported C functions of the real c2pa-c-ffi rlib (constructors for settings / context builder / context / reader / builder / stream / signer, setters, consuming *_with_* / build / set_signer calls, sign / read / archive / ingredient / resource calls on tiny assets through C2paStreams, string getters, c2pa_free and every type-specific free), executed in a forked child. Each handle argument is drawn from {live handle of the right type, live handle of a wrong type, freed handle, handle consumed by an earlier call, NULL, foreign pointer to a simulator-owned 4 KiB buffer}; strings, lengths and out-pointers are always valid. Model: address -> (type, live); constructors set live (so allocator address reuse is accounted for), consuming calls and frees clear. Oracle: a call with any misused handle returns its error indicator (NULL / negative) and c2pa_error() is non-empty; c2pa_free returns 0 exactly for live-or-NULL; a double free reports an error; the child never dies by a signal. Non-trivial = history contained a misuse; distinct = history",
+            rule: "one evaluation = one history of 5-40 calls over 30 exported C functions (plus a free performed by a second thread) of the real c2pa-c-ffi rlib (constructors for settings / context builder / context / reader / builder / stream / signer, setters, consuming *_with_* / build / set_signer calls, sign / read / archive / ingredient / resource calls on tiny assets through C2paStreams, string getters, c2pa_free and every type-specific free), executed in a forked child. Each handle argument is drawn from {live handle of the right type, live handle of a wrong type, freed handle, handle consumed by an earlier call, a handle argument of the immediately preceding call whatever its state now, NULL, foreign pointer to a simulator-owned 4 KiB buffer}; strings, lengths and out-pointers are always valid. Model: address -> (type, live); constructors set live (so allocator address reuse is accounted for), consuming calls and frees clear. Oracle: a call with any misused handle returns its error indicator (NULL / negative) and c2pa_error() is non-empty; c2pa_free returns 0 exactly for live-or-NULL; a double free reports an error; the child never dies by a signal. Non-trivial = history contained a misuse; distinct = history",
             assumptions: &["only handle parameters are misused", "functions returning void or bool have no error indicator and are only required not to crash", "no concurrent frees (the API documents that as unsupported)"],
             real: &["c2pa-c-ffi: all exercised extern \"C\" functions, cimpl pointer registry, c2pa SDK underneath"],
             stubbed: &["C caller (simulator), stream callbacks over an in-memory cursor"],
